@@ -23,7 +23,7 @@ META = dict(
                "D6 silent client).  Tie to the code: the model is evaluated in Coq on the same scripted sockets and "
                "clocks as the real _tcp_incoming_handle_client / _tcp_incoming (fake socket/time modules, no source "
                "change) and compared on outcome, bytes handed to decrypt, number of recv calls, clock readings "
-               "consumed and socket timeouts; an independent oracle checks delivery/give-up/timing on the code alone.",
+               "consumed and socket timeouts; an independent oracle checks delivery/give-up/timing on the code alone, incl. clients that stream for ever and the SENDER side (what _tcp_send reports as sent reaches the wire whole although send() takes only part).",
     level_note="Trusted: Coq kernel/vm_compute; harness/stepped_tcp.py (fake socket and time modules, SteppedTCP). "
                "Modelled, not verified: the kernel's TCP segmentation (any cut into non-empty reads), the wall clock "
                "(any list of integer readings), AES-GCM (only min_length/end_bytes and the fact that encrypt output "
